@@ -50,10 +50,16 @@ def seeded_table():
     return "\n".join(out)
 
 
+def notes():
+    t = open(os.path.join(HERE, "NOTES.md"), encoding="utf-8").read()
+    k = t.index("## False alarms corrected")
+    return t[k + len("## False alarms corrected"):].strip()
+
+
 def main():
     p = os.path.join(HERE, "DESIGN.md")
     s = open(p, encoding="utf-8").read()
-    for key, fn in (("fixed-defects", fixed_table), ("mutants", mutant_table), ("seeded", seeded_table)):
+    for key, fn in (("fixed-defects", fixed_table), ("mutants", mutant_table), ("seeded", seeded_table), ("notes", notes)):
         pat = re.compile(r"(<!-- BEGIN GENERATED: %s -->\n).*?(<!-- END GENERATED: %s -->)" % (key, key), re.S)
         if not pat.search(s):
             print("marker for %s not found" % key)
